@@ -92,8 +92,9 @@ class Call:
 
 
 class WT:
-    def __init__(self, prog, depth=3, inline_public=False, keep=(), backend=None):
+    def __init__(self, prog, depth=3, inline_public=False, keep=(), backend=None, two_d=None):
         self.prog = prog
+        self.two_d = two_d          # predicate on terms: values known to be 2-D arrays (`.shape` is then a pair of extents)
         self.backend = backend      # 'numpy' / 'dask': `mapper(agg)(..)` on an ArrayTypeFunctionMapping calls that backend's function
         self.maxdepth = depth
         self.keep = set(keep)       # functions recorded as calls instead of being evaluated in place
@@ -239,6 +240,8 @@ class WT:
             return ('coord', v, e.attr)
         if isinstance(v, tuple) and v[0] == 'global':
             return ('global', v[1] + '.' + e.attr)
+        if e.attr == 'shape' and self.two_d is not None and self.two_d(v):
+            return ('tuple', (('index', ('attr', v, 'shape'), ('const', 0)), ('index', ('attr', v, 'shape'), ('const', 1))))
         return ('attr', v, e.attr)
 
     def e_Subscript(self, f, e, env, depth):
